@@ -221,7 +221,23 @@ func (mc *machine) iterate(level string, n int) {
 			mc.count("prefix_with_live_keys/" + level + "/" + kind)
 		}
 		mc.count("iterations/" + level)
+		mc.s.BetweenIter = nil
+		if mc.rng.Chance(40) && len(mc.universe) > 0 {
+			// reads of other keys between NewIterator and First (what a contract does between Storage.Find and
+			// the first Iterator.Next): they leave the model untouched and must not disturb the iterator
+			ks := []string{mc.universe[mc.rng.Intn(len(mc.universe))], mc.universe[mc.rng.Intn(len(mc.universe))]}
+			mc.s.BetweenIter = func() {
+				for _, k := range ks {
+					if len(k) > 0 && k[0] == kvl.StoragePrefix {
+						mc.s.Cache.Get([]byte(k[1:]))
+					}
+					mc.s.Overlay.Get([]byte(k))
+				}
+			}
+			mc.count("iterations_with_reads_between_create_and_first/" + level)
+		}
 		mc.s.CheckIter(mc.m, level, raw, 4*len(mc.universe)+16, func(c, d string) { mc.report(c+":prefix="+kind, d) }, mc.count)
+		mc.s.BetweenIter = nil
 	}
 }
 
@@ -522,6 +538,8 @@ func main() {
 		}
 	}
 	r.Require("prefix/overlay/all_ff", 50)
+	r.Require("iterations_with_reads_between_create_and_first/cache", 200)
+	r.Require("iterations_with_reads_between_create_and_first/overlay", 200)
 	r.Require("prefix_with_live_keys/overlay/all_ff", 20)
 	for _, c := range []string{"tx.commit_nonempty", "tx.reset_nonempty", "block.commit_keep", "block.commit_reset", "block.commit_fresh", "block.discard",
 		"clone_checked", "clone_written", "write/tx.put_over_live", "write/tx.put_recreate_deleted", "write/tx.del_of_lower_layer_key", "write/tx.del_of_absent",
